@@ -79,8 +79,7 @@ theorem store_addCollCache (w : World) (c : Nat) (d n : String) :
 /-! ### rename -/
 
 theorem renameStep_refines (sv : Server) (st : SStore) (d n n' : String) (dt : Bool)
-    (h1 : WFs sv) (h2 : SWF st) (h3 : ∀ d n, toS (sv.coll d n) = alGet? (d, n) st)
-    (hD : (dt && n == n' && (sv.coll d n).isCreated) = false) :
+    (h1 : WFs sv) (h2 : SWF st) (h3 : ∀ d n, toS (sv.coll d n) = alGet? (d, n) st) :
     WFs (Catalog.renameStep sv d n n' dt).1 ∧ SWF (Spec.Catalog.renameStep st d n n' dt).1 ∧
     (∀ d' m, toS ((Catalog.renameStep sv d n n' dt).1.coll d' m) =
       alGet? (d', m) (Spec.Catalog.renameStep st d n n' dt).1) ∧
@@ -91,6 +90,14 @@ theorem renameStep_refines (sv : Server) (st : SStore) (d n n' : String) (dt : B
   · simp only [hv, Bool.not_false, if_true]
     exact ⟨h1, h2, h3, trivial⟩
   simp only [hv, Bool.not_true, Bool.false_eq_true, if_false]
+  by_cases hnn : n = n'
+  · -- renaming onto itself is refused, with or without dropTarget, whether the source exists or not
+    subst hnn
+    simp only [if_true]
+    cases alGet? (d, n) st with
+    | none => exact ⟨h1, h2, h3, rfl⟩
+    | some c => exact ⟨h1, h2, h3, rfl⟩
+  simp only [hnn, if_false]
   -- the two lazy creations change no lookup
   have t1 : ∀ d' m, (sv.setColl d n (sv.coll d n)).coll d' m = sv.coll d' m := coll_touch sv d n
   have w1 : WFs (sv.setColl d n (sv.coll d n)) := wfs_setColl h1 _ _ _
@@ -142,17 +149,6 @@ theorem renameStep_refines (sv : Server) (st : SStore) (d n n' : String) (dt : B
       have e2 : ¬ ((d', m) = (d, n)) := by intro h; exact hd (Prod.ext_iff.mp h).1
       simp only [hd, if_false, e1, e2]
       rw [hx d' m (by intro h; exact hd h.1)]; exact h3 d' m
-  by_cases hnn : n = n'
-  · -- renaming onto itself: excluded with dropTarget, refused without
-    subst hnn
-    have hdt : dt = false := by
-      cases dt
-      · rfl
-      · simp [hsrc] at hD
-    subst hdt
-    simp only [hsrc, if_true, Bool.false_eq_true, if_false]
-    exact ⟨w2, h2, fun d' m => by rw [t2]; exact h3 d' m, trivial⟩
-  simp only [hnn, if_false]
   by_cases ht : (sv.coll d n').isCreated = true
   · simp only [ht, if_true, Bool.true_and]
     cases dt with
@@ -194,6 +190,37 @@ theorem dropDb_refines {sv sx : Server} {st : SStore} (d : String)
   · simp [hd]
   · simp only [hd, if_false]; rw [hx]; exact h3 d' m
 
+/-- `drop_database` on a name, against the oracle's -/
+theorem dropDatabaseStep_refines (σ : Nat → Nat) {w : World} {s : SWorld} (c : Nat) (d : String)
+    (hR : Rel w s) :
+    Rel (dropDatabaseStep σ w c d).1 (upd s (σ c) (dropDb (s (σ c)) d)) ∧
+    OutEquiv (dropDatabaseStep σ w c d).2 .ok := by
+  have hW := hR.1
+  simp only [dropDatabaseStep]
+  have hx : ∀ d' m, ((w.store (σ c)).touchDb d).coll d' m = (w.store (σ c)).coll d' m :=
+    fun d' m => coll_touchDb _ d d' m
+  have wx : WFs ((w.store (σ c)).touchDb d) := wfs_touchDb (hW.1 _) d
+  split
+  · refine ⟨rel_addDbCache (rel_setStore hR _ _ _
+      (wfs_setDb wx d (wfdb_dropAll (wfdb_db wx d))) (swf_dropDb (hR.2.1 _) d)
+      (fun d' m => dropDb_refines d hx (hR.2.2 _) d' m)) c d, outEquiv_refl _⟩
+  · rename_i hnc
+    refine ⟨rel_setStore hR _ _ _ wx (swf_dropDb (hR.2.1 _) d) ?_, outEquiv_refl _⟩
+    intro d' m
+    rw [alGet?_dropDb, hx]
+    by_cases hd : d' = d
+    · simp only [hd, if_true]
+      apply (toS_eq_none_iff _).mpr
+      cases hcc : ((w.store (σ c)).coll d m).isCreated
+      · rfl
+      · exfalso; apply hnc
+        apply (dbCreated_iff (wfdb_db wx d)).mpr
+        refine ⟨m, ?_⟩
+        have := hx d m
+        unfold Server.coll at this
+        rw [this]; exact hcc
+    · simp only [hd, if_false]; exact hR.2.2 _ d' m
+
 theorem step_refines (σ : Nat → Nat) (w : World) (s : SWorld) (op : Op)
     (hR : Rel w s) (hD : inD σ w op = true) :
     Rel (Catalog.step σ w op).1 (Spec.Catalog.step σ s op).1 ∧
@@ -207,8 +234,7 @@ theorem step_refines (σ : Nat → Nat) (w : World) (s : SWorld) (op : Op)
     · refine ⟨rel_addDbCache (rel_setStore_left hR _ _ (wfs_touchDb (hW.1 _) d)
         (fun d' n => coll_touchDb _ d d' n)) c d, outEquiv_refl _⟩
   | getColl h n =>
-    simp only [inD, handlesObtained, vanishes, renameSelfDrop, filterListsUncreated, filterFalsy,
-      foreignDbHandle, foreignCollHandle, systemCreateExisting, Bool.not_false, Bool.and_true] at hD
+    simp only [inD, handlesObtained, vanishes, filterFalsy, Bool.not_false, Bool.and_true] at hD
     simp only [Catalog.step, Spec.Catalog.step, hD, Bool.not_true, Bool.false_eq_true, if_false]
     by_cases hc : (w.collCache h.client h.db).contains n = true
     · have hv : validName n = true := hW.2 _ _ _ (by simpa using hc)
@@ -221,8 +247,7 @@ theorem step_refines (σ : Nat → Nat) (w : World) (s : SWorld) (op : Op)
       · simp only [hv, Bool.not_false, if_true, Bool.false_eq_true, if_false]
         exact ⟨hR, outEquiv_refl _⟩
   | coll h o =>
-    simp only [inD, handlesObtained, vanishes, renameSelfDrop, filterListsUncreated, filterFalsy,
-      foreignDbHandle, foreignCollHandle, systemCreateExisting, Bool.not_false, Bool.and_true,
+    simp only [inD, handlesObtained, vanishes, filterFalsy, Bool.not_false, Bool.and_true,
       Bool.and_eq_true, Bool.not_eq_true'] at hD
     obtain ⟨hob, hv⟩ := hD
     simp only [Catalog.step, Spec.Catalog.step, hob, Bool.not_true, Bool.false_eq_true, if_false]
@@ -239,53 +264,36 @@ theorem step_refines (σ : Nat → Nat) (w : World) (s : SWorld) (op : Op)
         intro e; exact hdn ⟨(Prod.ext_iff.mp e).1, (Prod.ext_iff.mp e).2⟩
       simp only [hdn, if_false, this]; exact hR.2.2 _ d n
   | collRename h n' dt =>
-    simp only [inD, handlesObtained, vanishes, renameSelfDrop, filterListsUncreated, filterFalsy,
-      foreignDbHandle, foreignCollHandle, systemCreateExisting, Bool.not_false, Bool.and_true,
+    simp only [inD, handlesObtained, vanishes, filterFalsy, Bool.not_false, Bool.and_true,
       Bool.and_eq_true, Bool.not_eq_true'] at hD
-    obtain ⟨hob, hv⟩ := hD
-    simp only [Catalog.step, Spec.Catalog.step, hob, Bool.not_true, Bool.false_eq_true, if_false]
+    simp only [Catalog.step, Spec.Catalog.step, hD, Bool.not_true, Bool.false_eq_true, if_false]
     have := renameStep_refines (w.store (σ h.client)) (s (σ h.client)) h.db h.coll n' dt
-      (hW.1 _) (hR.2.1 _) (hR.2.2 _) hv
+      (hW.1 _) (hR.2.1 _) (hR.2.2 _)
     exact ⟨rel_setStore hR _ _ _ this.1 this.2.1 this.2.2.1, outEquiv_of_eq this.2.2.2⟩
   | renameCollection h n n' dt =>
-    simp only [inD, handlesObtained, vanishes, renameSelfDrop, filterListsUncreated, filterFalsy,
-      foreignDbHandle, foreignCollHandle, systemCreateExisting, Bool.not_false, Bool.and_true,
+    simp only [inD, handlesObtained, vanishes, filterFalsy, Bool.not_false, Bool.and_true,
       Bool.and_eq_true, Bool.not_eq_true'] at hD
-    obtain ⟨hob, hv⟩ := hD
-    simp only [Catalog.step, Spec.Catalog.step, hob, Bool.not_true, Bool.false_eq_true, if_false]
+    simp only [Catalog.step, Spec.Catalog.step, hD, Bool.not_true, Bool.false_eq_true, if_false]
     have := renameStep_refines (w.store (σ h.client)) (s (σ h.client)) h.db n n' dt
-      (hW.1 _) (hR.2.1 _) (hR.2.2 _) hv
+      (hW.1 _) (hR.2.1 _) (hR.2.2 _)
     exact ⟨rel_setStore hR _ _ _ this.1 this.2.1 this.2.2.1, outEquiv_of_eq this.2.2.2⟩
   | createCollection h n =>
-    simp only [inD, handlesObtained, vanishes, renameSelfDrop, filterListsUncreated, filterFalsy,
-      foreignDbHandle, foreignCollHandle, systemCreateExisting, Bool.not_false, Bool.and_true,
+    simp only [inD, handlesObtained, vanishes, filterFalsy, Bool.not_false, Bool.and_true,
       Bool.and_eq_true, Bool.not_eq_true'] at hD
-    obtain ⟨hob, hsys⟩ := hD
-    simp only [Catalog.step, Spec.Catalog.step, hob, Bool.not_true, Bool.false_eq_true, if_false]
+    simp only [Catalog.step, Spec.Catalog.step, hD, Bool.not_true, Bool.false_eq_true, if_false]
     by_cases hv : validName n = true
     swap
     · simp only [hv, Bool.not_false, if_true]; exact ⟨hR, outEquiv_refl _⟩
     simp only [hv, Bool.not_true, Bool.false_eq_true, if_false]
     have hcr := created_iff_isSome hR (σ h.client) h.db n
+    rw [contains_createdColls (hW.1 _)]
     by_cases hc : ((w.store (σ h.client)).coll h.db n).isCreated = true
-    · have hns : isSystem n = false := by
-        cases hs : isSystem n
-        · rfl
-        · simp [hs, hc] at hsys
-      have hm : ((w.store (σ h.client)).listColls h.db).contains n = true := by
-        simp only [List.contains_eq_mem, decide_eq_true_eq]
-        exact (mem_listColls (hW.1 _) _ _).mpr ⟨hc, hns⟩
-      have hh : alHas (h.db, n) (s (σ h.client)) = true := by unfold alHas; rw [← hcr]; exact hc
-      simp only [hm, if_true, hh]
+    · have hh : alHas (h.db, n) (s (σ h.client)) = true := by unfold alHas; rw [← hcr]; exact hc
+      simp only [hc, if_true, hh]
       exact ⟨hR, outEquiv_refl _⟩
-    · have hm : ((w.store (σ h.client)).listColls h.db).contains n = false := by
-        cases hx : ((w.store (σ h.client)).listColls h.db).contains n
-        · rfl
-        · simp only [List.contains_eq_mem, decide_eq_true_eq] at hx
-          exact absurd ((mem_listColls (hW.1 _) _ _).mp hx).1 hc
-      have hh : alHas (h.db, n) (s (σ h.client)) = false := by
+    · have hh : alHas (h.db, n) (s (σ h.client)) = false := by
         unfold alHas; rw [← hcr]; simpa using hc
-      simp only [hm, Bool.false_eq_true, if_false, hh]
+      simp only [hc, Bool.false_eq_true, if_false, hh]
       have he : (w.store (σ h.client)).coll h.db n = Coll.empty :=
         (isCreated_false_iff _).mp (by simpa using hc)
       refine ⟨rel_addCollCache (rel_setStore hR _ _ _ (wfs_setColl (hW.1 _) _ _ _)
@@ -302,8 +310,7 @@ theorem step_refines (σ : Nat → Nat) (w : World) (s : SWorld) (op : Op)
   | dropCollection h t =>
     cases t with
     | byName n =>
-      simp only [inD, handlesObtained, vanishes, renameSelfDrop, filterListsUncreated,
-        filterFalsy, foreignDbHandle, foreignCollHandle, systemCreateExisting, Bool.not_false,
+      simp only [inD, handlesObtained, vanishes, filterFalsy, Bool.not_false,
         Bool.and_true] at hD
       simp only [Catalog.step, Spec.Catalog.step, hD, Bool.not_true, Bool.false_eq_true, if_false]
       refine ⟨rel_setStore hR _ _ _ (wfs_setColl (hW.1 _) _ _ _) (swf_erase (hR.2.1 _) _) ?_,
@@ -317,12 +324,11 @@ theorem step_refines (σ : Nat → Nat) (w : World) (s : SWorld) (op : Op)
           intro e; exact hdn ⟨(Prod.ext_iff.mp e).1, (Prod.ext_iff.mp e).2⟩
         simp only [hdn, if_false, this]; exact hR.2.2 _ d m
     | byHandle h' =>
-      simp only [inD, handlesObtained, vanishes, renameSelfDrop, filterListsUncreated,
-        filterFalsy, foreignDbHandle, foreignCollHandle, systemCreateExisting, Bool.not_false,
-        Bool.and_true, Bool.and_eq_true, Bool.not_not, beq_iff_eq] at hD
-      obtain ⟨⟨hob1, hob2⟩, hσ, hdb⟩ := hD
+      simp only [inD, handlesObtained, vanishes, filterFalsy, Bool.not_false,
+        Bool.and_true, Bool.and_eq_true] at hD
+      obtain ⟨hob1, hob2⟩ := hD
       simp only [Catalog.step, Spec.Catalog.step, hob1, hob2, Bool.not_true, Bool.or_self,
-        Bool.false_eq_true, if_false, hσ, hdb]
+        Bool.false_eq_true, if_false]
       refine ⟨rel_setStore hR _ _ _ (wfs_setColl (hW.1 _) _ _ _) (swf_erase (hR.2.1 _) _) ?_,
         outEquiv_refl _⟩
       intro d m
@@ -336,33 +342,27 @@ theorem step_refines (σ : Nat → Nat) (w : World) (s : SWorld) (op : Op)
   | listCollectionNames h f =>
     cases f with
     | none =>
-      simp only [inD, handlesObtained, vanishes, renameSelfDrop, filterListsUncreated,
-        filterFalsy, foreignDbHandle, foreignCollHandle, systemCreateExisting, Bool.not_false,
+      simp only [inD, handlesObtained, vanishes, filterFalsy, Bool.not_false,
         Bool.and_true] at hD
       simp only [Catalog.step, Spec.Catalog.step, hD, Bool.not_true, Bool.false_eq_true, if_false]
       refine ⟨hR, outEquiv_names (nodup_listColls (hW.1 _) _) (nodup_slistColls (hR.2.1 _) _) ?_⟩
       intro a
       rw [mem_listColls (hW.1 _), mem_slistColls, created_iff_isSome hR]
     | some f =>
-      simp only [inD, handlesObtained, vanishes, renameSelfDrop, filterListsUncreated,
-        filterFalsy, foreignDbHandle, foreignCollHandle, systemCreateExisting, Bool.not_false,
+      simp only [inD, handlesObtained, vanishes, filterFalsy, Bool.not_false,
         Bool.and_true, Bool.and_eq_true, Bool.not_eq_true'] at hD
-      obtain ⟨⟨hob, hun⟩, hfal⟩ := hD
+      obtain ⟨hob, hfal⟩ := hD
       simp only [Catalog.step, Spec.Catalog.step, hob, hfal, Bool.not_true, Bool.false_eq_true,
         if_false]
       refine ⟨hR, outEquiv_names (nodup_listCollsFiltered (hW.1 _) _ _)
         ((nodup_slistColls (hR.2.1 _) _).filter _) ?_⟩
       intro a
       unfold listCollsFiltered
-      rw [List.mem_filter, mem_slistColls, mem_listCollsFiltered, ← created_iff_isSome hR]
+      rw [List.mem_filter, mem_slistColls, mem_listCollsFiltered (hW.1 _),
+        ← created_iff_isSome hR]
       constructor
-      · rintro ⟨h1, h2, h3⟩
-        have hm : a ∈ (w.store (σ h.client)).listCollsFiltered h.db f :=
-          (mem_listCollsFiltered _ _ _ _).mpr ⟨h1, h2, h3⟩
-        have := List.any_eq_false.mp hun a hm
-        exact ⟨⟨by simpa using this, h3⟩, h2⟩
-      · rintro ⟨⟨h1, h3⟩, h2⟩
-        exact ⟨coll_created_isSome h1, h2, h3⟩
+      · rintro ⟨h1, h2, h3⟩; exact ⟨⟨h1, h3⟩, h2⟩
+      · rintro ⟨⟨h1, h3⟩, h2⟩; exact ⟨h1, h2, h3⟩
   | listDatabaseNames c =>
     simp only [Catalog.step, Spec.Catalog.step]
     refine ⟨hR, outEquiv_names (nodup_listDbs (hW.1 _)) (nodup_slistDbs _) ?_⟩
@@ -375,41 +375,11 @@ theorem step_refines (σ : Nat → Nat) (w : World) (s : SWorld) (op : Op)
     cases t with
     | byName d =>
       simp only [Catalog.step, Spec.Catalog.step]
-      have hx : ∀ d' m, ((w.store (σ c)).touchDb d).coll d' m = (w.store (σ c)).coll d' m :=
-        fun d' m => coll_touchDb _ d d' m
-      have wx : WFs ((w.store (σ c)).touchDb d) := wfs_touchDb (hW.1 _) d
-      split
-      · refine ⟨rel_addDbCache (rel_setStore hR _ _ _
-          (wfs_setDb wx d (wfdb_dropAll (wfdb_db wx d))) (swf_dropDb (hR.2.1 _) d)
-          (fun d' m => dropDb_refines d hx (hR.2.2 _) d' m)) c d, outEquiv_refl _⟩
-      · rename_i hnc
-        refine ⟨rel_setStore hR _ _ _ wx (swf_dropDb (hR.2.1 _) d) ?_, outEquiv_refl _⟩
-        intro d' m
-        rw [alGet?_dropDb, hx]
-        by_cases hd : d' = d
-        · simp only [hd, if_true]
-          apply (toS_eq_none_iff _).mpr
-          cases hcc : ((w.store (σ c)).coll d m).isCreated
-          · rfl
-          · exfalso; apply hnc
-            apply (dbCreated_iff (wfdb_db wx d)).mpr
-            refine ⟨m, ?_⟩
-            have := hx d m
-            unfold Server.coll at this
-            rw [this]; exact hcc
-        · simp only [hd, if_false]; exact hR.2.2 _ d' m
+      exact dropDatabaseStep_refines σ c d hR
     | byHandle h =>
-      simp only [inD, handlesObtained, vanishes, renameSelfDrop, filterListsUncreated,
-        filterFalsy, foreignDbHandle, foreignCollHandle, systemCreateExisting, Bool.not_false,
-        Bool.and_true, Bool.and_eq_true, Bool.not_eq_true', bne_eq_false_iff_eq] at hD
-      obtain ⟨hob, hcl⟩ := hD
-      simp only [Catalog.step, Spec.Catalog.step, hob, hcl, Bool.not_true, Bool.false_eq_true,
-        if_false, ne_eq, not_true_eq_false]
-      have hx : ∀ d' m, ((w.store (σ c)).touchDb h.db).coll d' m = (w.store (σ c)).coll d' m :=
-        fun d' m => coll_touchDb _ h.db d' m
-      have wx : WFs ((w.store (σ c)).touchDb h.db) := wfs_touchDb (hW.1 _) h.db
-      exact ⟨rel_setStore hR _ _ _
-          (wfs_setDb wx h.db (wfdb_dropAll (wfdb_db wx h.db))) (swf_dropDb (hR.2.1 _) h.db)
-          (fun d' m => dropDb_refines h.db hx (hR.2.2 _) d' m), outEquiv_refl _⟩
+      simp only [inD, handlesObtained, vanishes, filterFalsy, Bool.not_false,
+        Bool.and_true] at hD
+      simp only [Catalog.step, Spec.Catalog.step, hD, Bool.not_true, Bool.false_eq_true, if_false]
+      exact dropDatabaseStep_refines σ c h.db hR
 
 end MongoModel.Proofs.C17
